@@ -21,6 +21,7 @@
          0 = before the first token) -- the syntactic positions,
        the comment KIND at each gap (block, line, doc-line, doc-block), each comment carrying a unique token,
        a LAYOUT variant (inline / on its own line / blank line before / after / semicolon before / after),
+       -- or, for container forms, a RUN of 2-3 comments in one gap separated by line breaks / blank lines --
        a formatter OPTION combination.
    TLC enumerates the cases (Place); the driver renders them, runs the formatter and records the
    observations. *)
@@ -58,7 +59,29 @@ InsideOK == {c \in Inside : LET p == c[1][Len(c[1]) - 1] g == SigByName[p[1]] IN
                               p[2] <= Len(g[4]) /\ SigByName[c[1][Len(c[1])][1]][2] \in Accepts(g[4][p[2]])}
 Targets == IF Nested THEN Plain \cup InsideOK ELSE Plain
 
+\* CONTAINER forms: forms with a delimited list of children (a block, a member / interface / enum body, a parameter
+\* or condition list, an argument list, an array or dictionary literal).  For those, RUNS of 2-3 comments are placed
+\* in ONE gap (in particular after the last child before the closing delimiter, and before the first child), separated
+\* by a line break or a blank line, the first one on the last child's line or on its own line.  The body slot holds a
+\* real child (a field, an interface function, a parameter; statements / cases / conditions are non-empty by default).
+ListSorts == {"S", "M", "I", "N", "P", "K"}
+ExprContainers == {"call1", "call2", "callT", "array1", "array2", "dict1", "dict2", "create", "attach", "emit", "kemit"}
+Fill(srt) == CASE srt = "M" -> << << <<"fieldlet", 2>> >>, "nom" >>
+               [] srt = "I" -> << << <<"ifun", 1>> >>, "acc-all" >>
+               [] srt = "P" -> << << <<"p1", 1>> >>, "nom" >>
+               [] OTHER -> << <<>>, Default(srt)[1] >>
+RunSlots == {<<s, j>> \in {u \in TargetForms : ~Nullary(u)} \X (1..9) :
+                 /\ j <= Len(s[4])
+                 /\ \/ s[4][j] \in ListSorts
+                    \/ s[1] \in ExprContainers /\ j = Len(s[4])}
+RunTargets == {<<Ctx(c[1][2]) \o << <<c[1][1], c[2]>> >> \o Fill(c[1][4][c[2]])[1], Fill(c[1][4][c[2]])[2], Len(Ctx(c[1][2])) + 1>> : c \in RunSlots}
 Opt0 == CHOOSE o \in OptionSet : o.id = 0
+RunKinds == {<<a, b>> : a \in {"line", "block"}, b \in {"line", "block"}} \cup {<<"doc-line", "line">>, <<"line", "doc-line">>}
+Runs == {[gaps |-> <<g>>, kinds |-> ks, seps |-> <<sp1>>, layout |-> lead, opt |-> Opt0] :
+            g \in 0..GapMax, ks \in RunKinds, sp1 \in {"nl", "blank"}, lead \in {"own-line", "inline"}}
+        \cup {[gaps |-> <<g>>, kinds |-> ks, seps |-> <<sp1, sp2>>, layout |-> "own-line", opt |-> Opt0] :
+            g \in 0..GapMax, ks \in {<<"line", "line", "line">>, <<"block", "line", "block">>}, sp1 \in {"nl", "blank"}, sp2 \in {"nl", "blank"}}
+
 LayoutsOf(k) == IF k \in {"doc-line", "doc-block"} THEN {"inline", "own-line"} ELSE Layouts
 \* one comment: every kind in every layout under the default options; block and line comments inline / on their own
 \* line under every other option combination; inside other forms: block and line comments inline, default options
@@ -73,12 +96,14 @@ Singles(nested) == {[gaps |-> <<g>>, kinds |-> c.kinds, layout |-> c.layout, opt
 Pairs == {[gaps |-> <<i, j>>, kinds |-> ks, layout |-> "inline", opt |-> Opt0] :
             i \in 0..PairGapMax, j \in 0..PairGapMax, ks \in {<<"block", "block">>, <<"line", "block">>}}
 
-VARIABLES target, nest, place
+VARIABLES target, nest, place   \* nest: "plain" | "inside" | "run"
 fvars == <<sp, leaf, full, target, nest, place>>
-FInit == /\ \E c \in Targets : sp = c[1] /\ leaf = c[2] /\ target = c[3] /\ nest = c[4]
+FInit == /\ \/ \E c \in Targets : sp = c[1] /\ leaf = c[2] /\ target = c[3] /\ nest = (IF c[4] THEN "inside" ELSE "plain")
+            \/ \E c \in RunTargets : sp = c[1] /\ leaf = c[2] /\ target = c[3] /\ nest = "run"
          /\ full = <<>> /\ place = <<>>
 Place == /\ place = <<>>
-         /\ place' \in Singles(nest) \cup (IF nest THEN {} ELSE {p \in Pairs : p.gaps[1] < p.gaps[2]})
+         /\ place' \in (IF nest = "run" THEN Runs
+                        ELSE Singles(nest = "inside") \cup (IF nest = "inside" THEN {} ELSE {p \in Pairs : p.gaps[1] < p.gaps[2]}))
          /\ UNCHANGED <<sp, leaf, full, target, nest>>
 FNext == Place
 FSpec == FInit /\ [][FNext]_fvars
